@@ -57,7 +57,8 @@ enum Cat {
   kOpt = 4,   // trivially copyable but declares trivially_relocatable = std::false_type (opted out)
   kOdd = 5,   // trivially copyable, declares trivially_relocatable = int (anything but std::true_type)
   kNMA = 6,   // noexcept move constructor, throwing move assignment, noexcept ADL swap; not relocatable
-  kTCD = 7    // trivially copyable and declares std::true_type
+  kTCD = 7,   // trivially copyable and declares std::true_type
+  kTMS = 8    // throwing move constructor and move assignment, noexcept ADL swap; not relocatable
 };
 
 template <unsigned S, unsigned A, int C>
@@ -118,6 +119,18 @@ struct alignas(A) E<S, A, kNMA> {
   E();
   E(const E &);
   E(E &&) noexcept;
+  E &operator=(const E &);
+  E &operator=(E &&) noexcept(false);
+  ~E();
+  friend void swap(E &, E &) noexcept {}
+  unsigned char b[S];
+};
+
+template <unsigned S, unsigned A>
+struct alignas(A) E<S, A, kTMS> {
+  E();
+  E(const E &);
+  E(E &&) noexcept(false);
   E &operator=(const E &);
   E &operator=(E &&) noexcept(false);
   ~E();
